@@ -95,6 +95,11 @@ func (is *ImportSet) Render(goPackage, depFile string) (dep, main string) {
 	}
 	var m strings.Builder
 	fmt.Fprintf(&m, "import %q\n", depFile)
+	// a local enum that has the bare name of the imported one and another base type: the name keeps meaning the imported
+	// definition (that is how the generator resolves it), every encoder and decoder has to agree on that
+	for _, e := range is.DepEnums {
+		fmt.Fprintf(&m, "enum %s : uint8 {\n    LocalDecoy = 1;\n    LocalOther = 200;\n}\n", e.Name)
+	}
 	for _, r := range is.Locals {
 		RenderRecord(&m, r, "")
 	}
